@@ -27,7 +27,10 @@ Definition conjugate (ox oy : Q) (m : T) : T :=
 
 (* CSS: a <length-percentage> resolves against the reference box size *)
 Definition spec_resolve (d : dim) (ref : Q) : Q :=
-  match d with Px v => v | Pct v => ref * v / 100 end.
+  match d with Px v => v | Pct v => ref * v / 100 | Em v => v end.
+(* <length-percentage> argument of translate(): em against the element's own computed font size *)
+Definition spec_length (g : box_geom) (d : dim) (ref : Q) : Q :=
+  match d with Em v => v * fsz g | _ => spec_resolve d ref end.
 Definition spec_origin_x (g : box_geom) : Q := bbx g + spec_resolve (orx g) (bw g).
 Definition spec_origin_y (g : box_geom) : Q := bby g + spec_resolve (ory g) (bh g).
 
@@ -35,7 +38,7 @@ Definition css_fun_matrix (g : box_geom) (f : tfun) : T :=
   match f with
   | TScale sx sy => m_scale sx sy
   | TRotate c s => m_rotate c s
-  | TTranslate x y => m_translate (spec_resolve x (bw g)) (spec_resolve y (bh g))
+  | TTranslate x y => m_translate (spec_length g x (bw g)) (spec_length g y (bh g))
   | TSkew tx ty => m_skew tx ty
   | TMatrix a b c d e f => mk a b c d e f
   end.
@@ -49,9 +52,9 @@ Definition css_src_matrix (tr : ctrig) (g : box_geom) (f : css_src) : T :=
   | CRotate v u => m_rotate (fst (fst (tr v u))) (snd (fst (tr v u)))
   | CSkewX v u | CSkew1 v u => m_skewX (snd (tr v u))
   | CSkewY v u => m_skewY (snd (tr v u))
-  | CTranslate1 x | CTranslateX x => m_translate (spec_resolve x (bw g)) 0
-  | CTranslate2 x y => m_translate (spec_resolve x (bw g)) (spec_resolve y (bh g))
-  | CTranslateY y => m_translate 0 (spec_resolve y (bh g))
+  | CTranslate1 x | CTranslateX x => m_translate (spec_length g x (bw g)) 0
+  | CTranslate2 x y => m_translate (spec_length g x (bw g)) (spec_length g y (bh g))
+  | CTranslateY y => m_translate 0 (spec_length g y (bh g))
   | CScale1 s => m_scale s s
   | CScale2 sx sy => m_scale sx sy
   | CScaleX s => m_scale s 1
